@@ -1452,8 +1452,11 @@ impl StoryState {
             self.switch_to_default_flow_internal();
         }
 
-        self.named_flows.as_mut().unwrap().remove(flow_name);
-        self.alive_flow_names_dirty = true;
+        // No named flow was ever created: there is nothing to remove.
+        if let Some(named_flows) = self.named_flows.as_mut() {
+            named_flows.remove(flow_name);
+            self.alive_flow_names_dirty = true;
+        }
 
         Ok(())
     }
